@@ -26,7 +26,7 @@ def doneOf {α} (rb : Node → Node) : Outcome (Node × α) → Walk α
   | .err e => .fail e
   | .panic => .panic
 
-theorem walk_nil {α} (o : Opts) (act : Node → Node → Outcome (Node × α)) (cr : Bool) (self con : Node) :
+theorem eng_walk_nil {α} (o : Opts) (act : Node → Node → Outcome (Node × α)) (cr : Bool) (self con : Node) :
     walk o act cr self con [] = doneOf id (act self con) := by
   rw [walk]
   cases act self con with
@@ -214,7 +214,7 @@ theorem walk_nav (o : Opts) (e : Bool) : ∀ (parts : List Bytes) (self con : No
   | nil =>
     intro self con cr hinv hcon _
     simp only [List.map_nil, nav, den_isContainer hinv hcon, if_true, WalkNav]
-    exact ⟨self, con, id, hinv, hcon, rfl, fun pc' a b => ⟨a, b, rfl⟩, fun α act => walk_nil o act cr self con⟩
+    exact ⟨self, con, id, hinv, hcon, rfl, fun pc' a b => ⟨a, b, rfl⟩, fun α act => eng_walk_nil o act cr self con⟩
   | cons part rest ih =>
     intro self con cr hinv hcon hparts
     have hkey : decodeToken part ≠ [] := hparts part List.mem_cons_self
